@@ -724,6 +724,28 @@ def make_variants(rng, t):
     return [b(t, False), b(t, True)]
 
 
+def foreign_refs(clone_objs, orig_ids):
+    """attributes of the clone's node objects (any attribute, also ones added later by other parts
+    of the library such as the layout's `thread`) that refer to a node object of the original"""
+    out = []
+
+    def scan(v, depth):
+        if depth > 3:
+            return False
+        if id(v) in orig_ids:
+            return True
+        if isinstance(v, (list, tuple, set)):
+            return any(scan(x, depth + 1) for x in v)
+        if isinstance(v, dict):
+            return any(scan(x, depth + 1) for x in v.values())
+        return False
+    for o in clone_objs:
+        for k, v in list(vars(o).items()):
+            if scan(v, 0):
+                out.append(f"{type(o).__name__}.{k}")
+    return out
+
+
 def _outcome_repr(n):
     try:
         v = n.evaluate({})
@@ -775,12 +797,26 @@ def c13(ctx):
             objs = objects(root)
             if len(objs) >= 3:
                 nontrivial += 1
+            laid_out = False
+            if n_eval % 4 == 0:
+                # trees are drawn (laid out) before they are copied: the layout leaves attributes
+                # on the node objects
+                try:
+                    from mathy_core.layout import TreeLayout
+                    TreeLayout().layout(root, 1.0, 1.0)
+                    laid_out = True
+                except Exception:  # noqa
+                    pass
             sig = expr_signature(root)
             try:
                 c = root.clone()
             except Exception as e:  # noqa
                 bad.append({"tree": core.tuple_str(t), "problem": "clone raised " + type(e).__name__})
                 continue
+            fr = foreign_refs(objects(c), {id(o) for o in objs})
+            if fr:
+                bad.append({"tree": core.tuple_str(t), "problem": "the clone refers to node objects of the original",
+                            "attributes": sorted(set(fr))[:5], "laid_out_before_cloning": laid_out})
             if expr_signature(c) != sig:
                 bad.append({"tree": core.tuple_str(t), "problem": "clone signature differs", "text": str(root)})
                 continue
